@@ -528,6 +528,8 @@ def trace_variants(tid: str, name: str) -> list[list[Span]]:
     out.append([span(tid, 0, None, 2, 3, name=name), span(tid, 1, f"{tid}.missing", 2, 3, name=name)])
     out.append([span(tid, 1, f"{tid}.missing", 0, 5, name=name)])
     out.append([span(tid, 0, None, 0, 0, name=name), span(tid, 1, f"{tid}.s0", 5, 5, name=name)])
+    # a complete trace whose root carries the empty string as parent id (OTLP/JSON writes "parentSpanId": ""): it has no parent
+    out.append([span(tid, 0, "", 2, 3, name=name), span(tid, 1, f"{tid}.s0", 2, 3, name=name)])
     # a broken trace whose spans carry several workflow names (names are only unified after the removal steps)
     out.append([span(tid, 0, None, 2, 3, name=name), span(tid, 1, f"{tid}.missing", 2, 3, name="OTHER"), span(tid, 2, f"{tid}.s0", 2, 2, name="OTHER2")])
     if tid != "A":
@@ -944,6 +946,18 @@ def domain_c15(tier: str, rng: random.Random) -> Iterable[dict[str, Any]]:
                 if n == maxlen and tier == "quick" and rng.random() < 0.5:
                     continue
                 yield {"spans": enc_spans(st), "batch": rng.choice([1, 2, 1000]), "history": [list(h) for h in hist]}
+    # a store large enough for the duplicate filter to look up several hundred ids at once: re-ingestion with a last batch of 501 ids
+    # (1501 spans, batch 1000) and one of 1001 ids (1001 spans, batch 2000)
+    def many(n_traces: int, extra: int) -> list[Span]:
+        out_: list[Span] = []
+        for t in range(n_traces):
+            tid = f"M{t}"
+            out_ += [span(tid, 0, None, 0, 3, name="W1", etype="r"), span(tid, 1, f"{tid}.s0", 1, 2, name="W1", etype=f"c{t % 3}"),
+                     span(tid, 2, f"{tid}.s0", 2, 3, name="W1", etype="d")]
+        return out_ + [span(f"X{k}", 0, None, 1, 2, name="W2", etype="single") for k in range(extra)]
+    for spans_, b in ((many(500, 1), 1000), (many(333, 2), 2000)):
+        for hist in ([[True, False], [True, False]], [[True, True], [True, True], [False, True]]):
+            yield {"spans": enc_spans(spans_), "batch": b, "history": hist}
     # a span delivered twice in a row (an exporter retry): both copies in one batch / split over two batches
     rep = chain("A", 3, "W1")
     rep = rep[:2] + [rep[1]] + rep[2:] + chain("B", 2, "W1")
